@@ -79,9 +79,9 @@ def run(ctx):
         return
 
     rng = random.Random(ctx.seed)
-    # 1. the calendar of the specification, day by day (windows in days since 1970-01-01: 1969..2040 quick;
+    # 1. the calendar of the specification, day by day (windows in days since 1970-01-01: 1997..2040 quick;
     #    1899..2101, around year 1, year 9999 and the 15th century thorough)
-    wins = [(0, 400, 25700)] if not thorough else [(0, 26000, 48000), (-719000, 300, 1000), (2932000, 1000, 896), (-180000, 2000, 2000)]
+    wins = [(18000, 8000, 7700)] if not thorough else [(0, 26000, 48000), (-719000, 300, 1000), (2932000, 1000, 896), (-180000, 2000, 2000)]
 
     def cal():
         for center, back, fwd in wins:
@@ -101,13 +101,13 @@ def run(ctx):
         jobs = [cal, lambda: _place.generate(ctx, "range", "C09", True, [0], xr)] + [
             (lambda t=t: _place.generate(ctx, t, "C09", True, zones, xd, timeout=1500)) for t in ("date_year", "date_month", "date_day")]
     else:
-        jobs = [cal, lambda: _place.generate(ctx, "range", "C09", False, [0], xr),
-                lambda: _place.generate(ctx, "date", "C09", False, zones, xd)]
+        xboth = _place.merge_extra(xr, xd)
+        jobs = [cal, lambda: _place.generate(ctx, "range+date_year+date_month+date_day", "C09", False, zones, xboth)]
     cases = [c for part in _place.parallel(jobs, 3 if not thorough else 4) for c in part]
     for k in vlib.known_replay_cases("C09"):
         if k.get("kind") == "place":
             cases.append(dict(k["case"]))
-    summ = _place.replay(ctx, cases)
+    summ = _place.replay(ctx, cases, selftest=True)
     ctx.log("replayed", summ)
     nt = set()
     for c in cases:
@@ -119,4 +119,3 @@ def run(ctx):
     ctx.cov["zones"] = zones
     for c in (cases[1], cases[len(cases) // 3], cases[len(cases) // 2], cases[-5]):
         _place.sample(ctx, c)
-    _place.selftest(ctx, cases)
